@@ -180,6 +180,61 @@ pub fn realise_type(g: &Graph, salt: u64) -> String {
     s
 }
 
+/// mixed realisation: every node is a FUNCTION_BLOCK or a STRUCT (kind from the salt, at least one
+/// of each when n >= 2); an edge is an instance variable / a structure element of the target type.
+/// "A function block transitively contains an instance of itself" also when the path runs through
+/// structures.
+pub fn realise_mixed(g: &Graph, salt: u64) -> Option<String> {
+    if g.n < 2 {
+        return None;
+    }
+    let mut z = mix(salt ^ 0x3d);
+    let mut is_fb: Vec<bool> = (0..g.n)
+        .map(|_| {
+            z = mix(z);
+            z % 2 == 0
+        })
+        .collect();
+    if is_fb.iter().all(|x| *x) {
+        is_fb[(z % g.n as u64) as usize] = false;
+    }
+    if is_fb.iter().all(|x| !*x) {
+        is_fb[(z % g.n as u64) as usize] = true;
+    }
+    let name = |j: usize| if is_fb[j] { format!("fb{}", j) } else { format!("ts{}", j) };
+    let mut s = String::new();
+    for &i in g.order(salt ^ 0x99).iter() {
+        if is_fb[i] {
+            s.push_str(&format!("FUNCTION_BLOCK fb{}\nVAR\n", i));
+            let mut any = false;
+            for j in 0..g.n {
+                if g.adj[i][j] {
+                    s.push_str(&format!("inst{}_{} : {};\n", i, j, name(j)));
+                    any = true;
+                }
+            }
+            if !any {
+                s.push_str(&format!("leaf{} : INT;\n", i));
+            }
+            s.push_str("END_VAR\nEND_FUNCTION_BLOCK\n");
+        } else {
+            s.push_str(&format!("TYPE\nts{} : STRUCT\n", i));
+            let mut any = false;
+            for j in 0..g.n {
+                if g.adj[i][j] {
+                    s.push_str(&format!("e{}_{} : {};\n", i, j, name(j)));
+                    any = true;
+                }
+            }
+            if !any {
+                s.push_str(&format!("leaf{} : INT;\n", i));
+            }
+            s.push_str("END_STRUCT;\nEND_TYPE\n");
+        }
+    }
+    Some(s)
+}
+
 pub fn judge(text: &str, cyclic: bool) -> Result<bool, (String, String)> {
     let (v, _) = analyze_text(text, "c07.st");
     let codes = match v {
@@ -204,7 +259,11 @@ fn check_graph(g: &Graph, salt: u64, stats: &mut Stats, counting: bool) -> Resul
     if g.n <= 4 && cyc != g.cyclic_closure() {
         return Err(Failure::new("reference", "oracle-disagreement", "DFS and transitive closure disagree", json!({"graph": g.describe()})));
     }
-    for (kind, text) in [("fb", realise_fb(g, salt)), ("type", realise_type(g, salt))] {
+    let mut realisations = vec![("fb", realise_fb(g, salt)), ("type", realise_type(g, salt))];
+    if let Some(m) = realise_mixed(g, salt) {
+        realisations.push(("mixed", m));
+    }
+    for (kind, text) in realisations {
         let r = judge(&text, cyc);
         if counting {
             let nt = g.n >= 2 && g.edges() >= 1;
@@ -257,7 +316,7 @@ pub fn run(ctx: &Ctx) -> i32 {
         ctx.tier,
         ctx.seed,
         "exploration",
-        "directed graphs with self-loops: ALL graphs on 1..4 nodes (2+16+512+65536, exhaustive) and random graphs on 5..12 nodes (edge density drawn per case, DAG-biased half of the time with an optional single back edge), each realised as a function-block instance graph (VAR / VAR_INPUT / VAR_OUTPUT instances) and as a type graph (alias / structure element), declarations in a seed-derived order. Oracle: reference DFS cycle test (cross-checked by transitive closure for n<=4): cyclic => P0010 or P0013 reported; acyclic => neither. Non-trivial: >= 2 nodes and >= 1 edge; distinct by program text.",
+        "directed graphs with self-loops: ALL graphs on 1..4 nodes (2+16+512+65536, exhaustive) and random graphs on 5..12 nodes (edge density drawn per case, DAG-biased half of the time with an optional single back edge), each realised as a function-block instance graph (VAR / VAR_INPUT / VAR_OUTPUT instances) as a type graph (alias / structure element) and as a mixed graph (every node a function block or a structure, edges = instance variables / structure elements), declarations in a seed-derived order. Oracle: reference DFS cycle test (cross-checked by transitive closure for n<=4): cyclic => P0010 or P0013 reported; acyclic => neither. Non-trivial: >= 2 nodes and >= 1 edge; distinct by program text.",
     );
     // exhaustive part
     let mut items: Vec<(usize, u64)> = vec![];
